@@ -178,13 +178,16 @@ class C20(Check):
                 import itertools
 
                 names = ["equal", "equal-negative", "all-zero"]
+                # other magnitudes: tiny equal factors, tiny factors that clearly differ (by a factor of two and more), factors
+                # whose PRODUCT under- / overflows any absolute tolerance while none of them is zero, huge factors
+                names += ["small-equal", "tiny-equal", "tiny-different", "mixed-magnitude", "huge-different", "huge-equal"]
                 # the odd factor (different, barely different, zero) at EVERY position, and every order of distinct factors
                 names += ["%s@%d" % (k, pos) for k in ("one-different", "tiny-difference-clear", "zero") for pos in range(d)]
                 names += ["different-perm%d" % j for j in range(len(list(itertools.permutations(range(d)))))]
                 for vals in names:
                     for container in ("ndarray", "list", "tuple"):
                         out.append(("factory", d, vals, container))
-                for s in (2.5, -1.5, 0.0, 1):
+                for s in (2.5, -1.5, 0.0, 1, 1e-9, 1e12):
                     out.append(("factory-scalar", d, s))
             return out
         if k == "tcoords":
@@ -485,7 +488,17 @@ class C20(Check):
             perm = list(itertools.permutations(range(d)))[int(vals[len("different-perm"):])]
             v = [0.5 + 0.75 * i for i in perm]
         else:
-            v = {"equal": [1.75] * d, "equal-negative": [-2.0] * d, "all-zero": [0.0] * d}[vals]
+            v = {
+                "equal": [1.75] * d,
+                "equal-negative": [-2.0] * d,
+                "all-zero": [0.0] * d,
+                "small-equal": [1e-3] * d,
+                "tiny-equal": [1e-9] * d,
+                "tiny-different": [1e-9 * (i + 1) for i in range(d)],
+                "mixed-magnitude": ([1e6, 1e-15, 1.0])[:d],
+                "huge-different": [1e9 * (i + 1) for i in range(d)],
+                "huge-equal": [1e12] * d,
+            }[vals]
         arg = np.array(v) if container == "ndarray" else list(v) if container == "list" else tuple(v)
         try:
             s, exc = Scale(arg), None
@@ -501,7 +514,7 @@ class C20(Check):
             return [] if exc is not None else [Failure(where, "zero-not-refused", "Scale(%r) returned %s" % (v, type(s).__name__))]
         if exc is not None:
             return [Failure(where, "refused", "Scale(%r) raised %r" % (v, exc))]
-        uniform = vals in ("equal", "equal-negative")
+        uniform = vals in ("equal", "equal-negative", "small-equal", "tiny-equal", "huge-equal")
         want = UniformScale if uniform else NonUniformScale
         fails = []
         if type(s) is not want:
@@ -588,7 +601,7 @@ class C20(Check):
 
     # ------------------------------------------------------------------ reporting
     def vacuity(self, notes, stats):
-        need = ["turn:wraps", "turn:plain", "axis-angle:3d-negative", "axis-angle:3d-positive", "axis-angle:2d-negative", "axis-angle:2d-non-negative", "quat:grid", "quat:half-turn", "quat:near-half-turn", "about:rotate-deg", "about:rotate-rad", "about:shear-deg", "about:transform-other", "about:transform-homogeneous", "factory:zero", "factory:all-zero", "factory:equal", "factory:one-different", "factory:tiny-difference-clear", "factory:different-perm", "factory:odd-factor-in-the-middle", "tcoords:corners", "tcoords:inverse"]
+        need = ["turn:wraps", "turn:plain", "axis-angle:3d-negative", "axis-angle:3d-positive", "axis-angle:2d-negative", "axis-angle:2d-non-negative", "quat:grid", "quat:half-turn", "quat:near-half-turn", "about:rotate-deg", "about:rotate-rad", "about:shear-deg", "about:transform-other", "about:transform-homogeneous", "factory:zero", "factory:all-zero", "factory:equal", "factory:one-different", "factory:tiny-difference-clear", "factory:different-perm", "factory:odd-factor-in-the-middle", "factory:tiny-different", "factory:mixed-magnitude", "factory:small-equal", "tcoords:corners", "tcoords:inverse"]
         return ["outcome %s never produced" % n for n in need if not notes.get(n)]
 
     def rule(self):
